@@ -16,12 +16,12 @@ import (
 func init() {
 	register(&propDef{
 		id:      "C04",
-		explain: "Structural necessary conditions of 'a client call returns the response to its own request': (R1) in the transport's RoundTrip a connection obtained from AcquireConn is, on every path, closed, released to the pool, or handed to the stream-close closure exactly once; (R2) it is released to the pool only on paths where the response was read without error; (R3) inside the stream-close closure the connection is pooled only under a condition that depends on the body having been read to its end (and on the close decision and the caller's error); (R4) in the pipelining client a work item is given back to the pool by the caller only when it was never queued or its completion was received - never after a timeout while the connection goroutines still hold it; the pipeline writer hands every request it wrote either to the reader queue or completes it with an error and stops; (R5) response-header fields that closure consults live and that the transport did not also capture when it built the closure (recomputed on every run; none on today's tree, where the stream remembers its declared length and the close flag is captured) are never reset before the body stream of the same Response is closed, in any function of the module; (R6) the connection's buffered reader is returned to its pool by RoundTrip itself exactly on the paths on which no body stream reading through it is handed to the caller (there the stream-close callback returns it); (R7) every client function that reads a response off a connection for a request has consulted the request's IsHead() on every path to that read and stores SkipBody = true under it - a HEAD response announces a length but carries no body, and reading one would take the next response's bytes for it. (R8) where the client itself raises Response.SkipBody on the caller's Response (HEAD exchanges), the caller's value is stored back on every path before the function returns or signals completion, so the flag cannot stick to a reused Response object and leave a later GET body unread on the connection. (R9) in the pipeline connection worker the pending-response queue is drained only on paths that have received the end of both the writer and the reader goroutine (select cases and plain receives on the two completion channels), so no item can enter the queue after the drain and survive into the re-dialled connection. (R10) the pipeline worker does not return, once both its goroutines have stopped, before it found the pending queue empty; (R11) the close-or-release decision at the end of RoundTrip depends on the caller's Response.SkipBody: a body the caller asked not to read is still on the connection. Not decided: interleavings, slow or partial servers, byte-level framing of responses (C03's mirror).",
+		explain: "Structural necessary conditions of 'a client call returns the response to its own request': (R1) in the transport's RoundTrip a connection obtained from AcquireConn is, on every path, closed, released to the pool, or handed to the stream-close closure exactly once; (R2) it is released to the pool only on paths where the response was read without error; (R3) inside the stream-close closure the connection is pooled only under a condition that depends on the body having been read to its end (and on the close decision and the caller's error); (R4) in the pipelining client a work item is given back to the pool by the caller only when it was never queued or its completion was received - never after a timeout while the connection goroutines still hold it; the pipeline writer hands every request it wrote either to the reader queue or completes it with an error and stops; (R5) response-header fields that closure consults live and that the transport did not also capture when it built the closure (recomputed on every run; none on today's tree, where the stream remembers its declared length and the close flag is captured) are never reset before the body stream of the same Response is closed, in any function of the module; (R6) the connection's buffered reader is returned to its pool by RoundTrip itself exactly on the paths on which no body stream reading through it is handed to the caller (there the stream-close callback returns it); (R7) every client function that reads a response off a connection for a request has consulted the request's IsHead() on every path to that read and stores SkipBody = true under it - a HEAD response announces a length but carries no body, and reading one would take the next response's bytes for it. (R8) where the client itself raises Response.SkipBody on the caller's Response (HEAD exchanges), the caller's value is stored back on every path before the function returns or signals completion, so the flag cannot stick to a reused Response object and leave a later GET body unread on the connection. (R9) in the pipeline connection worker the pending-response queue is drained only on paths that have received the end of both the writer and the reader goroutine (select cases and plain receives on the two completion channels), so no item can enter the queue after the drain and survive into the re-dialled connection. (R10) the pipeline worker does not return, once both its goroutines have stopped, before it found the pending queue empty; (R12) the pipeline reader reads each response with SkipBody computed from the request's method and StreamBody off - the caller's flags cannot leave a body in the shared reader; (R11) the close-or-release decision at the end of RoundTrip depends on the caller's Response.SkipBody: a body the caller asked not to read is still on the connection. Not decided: interleavings, slow or partial servers, byte-level framing of responses (C03's mirror).",
 		run:     runC04,
 	})
 	register(&propDef{
 		id:      "C18",
-		explain: "Structural necessary conditions of 'HostClient never exceeds MaxConns, its connection count is exact, and waiters are served': (E1) connsCount pairing on every path: AcquireConn keeps one unit exactly when it returns a freshly dialled connection; decConnsCount gives back one unit or hands it to exactly one dial goroutine for a waiter; dialConnFor gives the inherited unit back on every dial failure and keeps it with the connection otherwise; CloseConn gives back exactly one unit; (R-bound) the increment is control-dependent on connsCount < maxConns in the same critical section, where maxConns is the configured value or the default; (E8) conns, connsCount, connsWait and connsCleanerRun are only accessed under connsLock, wantConn.conn/err under wantConn.mu; (R-idle) a connection taken from the idle list is removed from it in the same critical section. (R-wait) in AcquireConn every return reached after a waiter was queued either hands out what the waiter received or has cancelled it (explicitly or through a deferred closure registered before the waiter was queued), so an abandoned waiter never receives a connection or a slot. (R-cancel) wantConn.cancel has no return before it took the waiter's mutex, reads the delivered connection inside that critical section, and on every path from that read to a return on which the value can be non-nil passes it to ReleaseConn/CloseConn - a delivered connection is never dropped on an unlocked look at the waiter. (R-close) CloseConn closes the connection before it gives the slot back (the freed slot starts the next dial); (R-timer) initTimer, which re-arms the pooled wait timer, contains no explicit panic. Not decided: waiter fairness, deadline timing, interleavings.",
+		explain: "Structural necessary conditions of 'HostClient never exceeds MaxConns, its connection count is exact, and waiters are served': (E1) connsCount pairing on every path: AcquireConn keeps one unit exactly when it returns a freshly dialled connection; decConnsCount gives back one unit or hands it to exactly one dial goroutine for a waiter; dialConnFor gives the inherited unit back on every dial failure and keeps it with the connection otherwise; CloseConn gives back exactly one unit; (R-bound) the increment is control-dependent on connsCount < maxConns in the same critical section, where maxConns is the configured value or the default; (E8) conns, connsCount, connsWait and connsCleanerRun are only accessed under connsLock, wantConn.conn/err under wantConn.mu; (R-idle) a connection taken from the idle list is removed from it in the same critical section. (R-wait) in AcquireConn every return reached after a waiter was queued either hands out what the waiter received or has cancelled it (explicitly or through a deferred closure registered before the waiter was queued), so an abandoned waiter never receives a connection or a slot. (R-cancel) wantConn.cancel has no return before it took the waiter's mutex, reads the delivered connection inside that critical section, and on every path from that read to a return on which the value can be non-nil passes it to ReleaseConn/CloseConn - a delivered connection is never dropped on an unlocked look at the waiter. (R-cleaner) every append to the idle list is followed, in its critical section, by something that makes sure the idle cleaner runs; (R-close) CloseConn closes the connection before it gives the slot back (the freed slot starts the next dial); (R-timer) initTimer, which re-arms the pooled wait timer, contains no explicit panic. Not decided: waiter fairness, deadline timing, interleavings.",
 		run:     runC18,
 	})
 	register(&propDef{
@@ -202,6 +202,7 @@ func runC04(p *Prog, r *Report) {
 	skipBodyRestoredRule(p, r)
 	pendingDrainedAfterBothStopped(p, r)
 	skippedBodyClosesConn(p, r)
+	pipelinedBodyLeavesTheReader(p, r)
 	// R4a: pipelineWork typestate in the callers
 	runPipelineCaller(p, r, "C04")
 	// R4b: the writer
@@ -543,6 +544,7 @@ func runC18(p *Prog, r *Report) {
 	waiterCancelledOnGiveUp(p, r)
 	cancelReturnsDeliveredConn(p, r)
 	socketClosedBeforeSlotFreed(p, r)
+	idleConnsExpire(p, r)
 	timerReuseCannotPanic(p, r, "R-timer")
 	acq := p.Func("(*HostClient).AcquireConn")
 	dec := p.Func("(*HostClient).decConnsCount")
@@ -717,6 +719,13 @@ func runC18(p *Prog, r *Report) {
 		exempt: map[string]string{
 			"(*HostClient).AcquireConn": "reads w.conn / w.err after <-w.ready: the close of ready in tryDeliver (under mu) happens-before the receive; all other accesses in this function hold connsLock (checked: the exemption is only needed for the two wantConn reads)",
 		},
+		heldOnEntry: map[string][]string{},
+	}
+	// helpers named ...Locked run with connsLock held (analysed with the lock held; every call site is checked to hold it)
+	for _, fn := range p.funcsIn("") {
+		if recvTypeName(fn) == "HostClient" && strings.HasSuffix(fn.Name(), "Locked") {
+			tbl.heldOnEntry[funcName(fn)] = []string{"HostClient.connsLock"}
+		}
 	}
 	checkLockset(p, r, "E8", tbl, nil)
 	// the exemption above must not hide pool-field accesses: check AcquireConn's HostClient fields separately
@@ -1148,6 +1157,10 @@ func headSkipsBodyRule(p *Prog, r *Report) {
 						if c, isC := st.Val.(*ssa.Const); isC && c.Value != nil && c.Value.ExactString() == "true" {
 							return true
 						}
+						// SkipBody = IsHead(): the method decides directly
+						if cv, isCall := st.Val.(*ssa.Call); isCall && cv.Call.StaticCallee() != nil && cv.Call.StaticCallee().Name() == "IsHead" {
+							return true
+						}
 					}
 				}
 				iff, ok := i.(*ssa.If)
@@ -1164,6 +1177,9 @@ func headSkipsBodyRule(p *Prog, r *Report) {
 					}
 					if _, fv := fieldOfAddr(st.Addr); fv == nil || fv.Name() != "SkipBody" {
 						continue
+					}
+					if cv, isCall := st.Val.(*ssa.Call); isCall && cv.Call.StaticCallee() != nil && cv.Call.StaticCallee().Name() == "IsHead" {
+						stores = true
 					}
 					if c, isC := st.Val.(*ssa.Const); !isC || c.Value == nil || c.Value.ExactString() != "true" {
 						continue
@@ -1212,7 +1228,14 @@ func skipBodyRestoredRule(p *Prog, r *Report) {
 				if fv == nil || fv.Name() != "SkipBody" {
 					continue
 				}
-				if c, isC := st.Val.(*ssa.Const); !isC || c.Value == nil || c.Value.ExactString() != "true" {
+				raising := false
+				if c, isC := st.Val.(*ssa.Const); isC && c.Value != nil && c.Value.ExactString() == "true" {
+					raising = true
+				}
+				if cv, isCall := st.Val.(*ssa.Call); isCall && cv.Call.StaticCallee() != nil && cv.Call.StaticCallee().Name() == "IsHead" {
+					raising = true // SkipBody = IsHead(): raised for a HEAD exchange
+				}
+				if !raising {
 					continue
 				}
 				n++
@@ -1904,4 +1927,171 @@ func socketClosedBeforeSlotFreed(p *Prog, r *Report) {
 			"decConnsCount is reachable before the connection's Close: the freed slot starts a dial (or admits a new connection) while this socket is still open - with a slow Close more than MaxConns connections are open at once", blocksString(p, path)...)
 	})
 	r.Floor("R-close", "slot releases in CloseConn", n, 1)
+}
+
+// idleConnsExpire (C18.R-cleaner): ConnsCount returns to zero only if idle connections expire, which is the cleaner's
+// job. Every function that appends a connection to the idle list makes sure, in the same critical section, that the
+// cleaner runs: from the store of the appended list no Unlock or return is reachable without a call that raises
+// connsCleanerRun (or the raise itself) - unless such a call already dominates the store.
+func idleConnsExpire(p *Prog, r *Report) {
+	raises := func(f *ssa.Function) bool {
+		if f == nil || f.Blocks == nil {
+			return false
+		}
+		for _, b := range f.Blocks {
+			for _, in := range b.Instrs {
+				if st, ok := in.(*ssa.Store); ok {
+					if _, fv := fieldOfAddr(st.Addr); fv != nil && fv.Name() == "connsCleanerRun" {
+						if c, isC := st.Val.(*ssa.Const); isC && c.Value != nil && c.Value.ExactString() == "true" {
+							return true
+						}
+					}
+				}
+			}
+		}
+		return false
+	}
+	n := 0
+	for _, fn := range p.funcsIn("") {
+		if recvTypeName(fn) != "HostClient" {
+			continue
+		}
+		for _, b := range fn.Blocks {
+			for _, in := range b.Instrs {
+				st, ok := in.(*ssa.Store)
+				if !ok {
+					continue
+				}
+				base, fv := fieldOfAddr(st.Addr)
+				if fv == nil || fv.Name() != "conns" || base == nil || typeNameOf(base) != "HostClient" {
+					continue
+				}
+				c, ok := st.Val.(*ssa.Call)
+				if !ok {
+					continue
+				}
+				if bi, ok := c.Call.Value.(*ssa.Builtin); !ok || bi.Name() != "append" {
+					continue
+				}
+				n++
+				ensures := func(i ssa.Instruction) bool {
+					if cc, ok := i.(ssa.CallInstruction); ok && cc.Common().StaticCallee() != nil && inModule(cc.Common().StaticCallee()) && raises(cc.Common().StaticCallee()) {
+						return true
+					}
+					if s2, ok := i.(*ssa.Store); ok {
+						if _, f2 := fieldOfAddr(s2.Addr); f2 != nil && f2.Name() == "connsCleanerRun" {
+							return true
+						}
+					}
+					return false
+				}
+				hit, path := reachAvoiding(fn, st, func(i ssa.Instruction) bool {
+					if isReturn(i) {
+						return true
+					}
+					cc, ok := i.(ssa.CallInstruction)
+					if !ok {
+						return false
+					}
+					if _, isD := i.(*ssa.Defer); isD {
+						return false
+					}
+					key, op, _ := lockOp(cc)
+					return op < 0 && strings.HasSuffix(key, "connsLock")
+				}, ensures, nil)
+				if hit != nil {
+					for _, b2 := range fn.Blocks {
+						for _, i2 := range b2.Instrs {
+							if ensures(i2) && dominatesInstr(i2, st) {
+								hit, path = nil, nil
+							}
+						}
+					}
+				}
+				r.Check("R-cleaner", funcName(fn)+": a connection that becomes idle has the idle cleaner running", hit == nil, p.Pos(st.Pos()),
+					"the idle list grows and the critical section ends without anything that starts the cleaner: a connection dialled for a waiting request (the cleaner is otherwise started only when AcquireConn creates one for a keep-alive request) never expires, and ConnsCount never returns to zero", blocksString(p, path)...)
+			}
+		}
+	}
+	r.Floor("R-cleaner", "appends to the idle connection list", n, 2)
+}
+
+// pipelinedBodyLeavesTheReader (C04.R12): the pipeline reader shares one buffered reader between the responses of all
+// requests in flight. At the call that reads a response, the flags that decide whether the body is taken off the
+// reader are the reader's own: on every path the last store to resp.SkipBody before the read has a value computed
+// from the request's method (IsHead), and a store of false to resp.StreamBody precedes it - never the caller's
+// values, which would leave the body in (or stream it from) the reader the next response is read from.
+func pipelinedBodyLeavesTheReader(p *Prog, r *Report) {
+	fn := p.Func("(*pipelineConnClient).reader")
+	if fn == nil {
+		r.Undecided("R12", "(*pipelineConnClient).reader", "not found")
+		return
+	}
+	var read ssa.Instruction
+	allCalls(fn, func(b *ssa.BasicBlock, c ssa.CallInstruction) {
+		if f := c.Common().StaticCallee(); f != nil && f.Name() == "Read" && recvTypeName(f) == "Response" {
+			read = c
+		}
+	})
+	if read == nil {
+		r.Undecided("R12", "reader: the call that reads a response", "not found")
+		return
+	}
+	header := loopHeaderOf(read.Block())
+	storeOf := func(i ssa.Instruction, field string) *ssa.Store {
+		st, ok := i.(*ssa.Store)
+		if !ok {
+			return nil
+		}
+		if _, fv := fieldOfAddr(st.Addr); fv != nil && fv.Name() == field {
+			return st
+		}
+		return nil
+	}
+	fromMethod := func(v ssa.Value) bool {
+		c, ok := v.(*ssa.Call)
+		return ok && c.Call.StaticCallee() != nil && c.Call.StaticCallee().Name() == "IsHead"
+	}
+	start := ssa.Instruction(nil)
+	if header != nil {
+		start = header.Instrs[len(header.Instrs)-1]
+	}
+	isRead := func(i ssa.Instruction) bool { return i == read }
+	h1, p1 := reachAvoiding(fn, start, isRead, func(i ssa.Instruction) bool {
+		st := storeOf(i, "SkipBody")
+		return st != nil && fromMethod(st.Val)
+	}, nil)
+	r.Check("R12", "pipeline reader: the response is read with SkipBody decided by the request's method", h1 == nil, p.Pos(read.Pos()),
+		"the read is reachable without a store of IsHead() into resp.SkipBody: with the caller's SkipBody = true on a GET the body stays in the shared reader and is parsed as the response to the next pipelined request", blocksString(p, p1)...)
+	h2, p2 := reachAvoiding(fn, start, isRead, func(i ssa.Instruction) bool {
+		st := storeOf(i, "StreamBody")
+		if st == nil {
+			return false
+		}
+		c, isC := st.Val.(*ssa.Const)
+		return isC && c.Value != nil && c.Value.ExactString() == "false"
+	}, nil)
+	r.Check("R12", "pipeline reader: the response is read with StreamBody off", h2 == nil, p.Pos(read.Pos()),
+		"the read is reachable without resp.StreamBody = false: the caller gets a stream over the reader the next response is read from", blocksString(p, p2)...)
+	// the caller's flags do not reach the read: no store of a non-method value into SkipBody between the method store and the read
+	bad := 0
+	for _, b := range fn.Blocks {
+		for _, in := range b.Instrs {
+			if st := storeOf(in, "SkipBody"); st != nil && !fromMethod(st.Val) {
+				if hit, _ := reachAvoiding(fn, in, isRead, func(i ssa.Instruction) bool {
+					s2 := storeOf(i, "SkipBody")
+					return s2 != nil && fromMethod(s2.Val)
+				}, map[*ssa.BasicBlock]bool{}); hit != nil && header != nil && inLoop(header, b) {
+					// reachable only around the loop through the header, where the method store intervenes, is fine
+					if h3, _ := reachAvoiding(fn, in, isRead, func(i ssa.Instruction) bool {
+						s2 := storeOf(i, "SkipBody")
+						return s2 != nil && fromMethod(s2.Val)
+					}, nil); h3 != nil {
+						bad++
+					}
+				}
+			}
+		}
+	}
+	r.Check("R12", "pipeline reader: no store of the caller's SkipBody reaches the read", bad == 0, p.Pos(read.Pos()), fmt.Sprintf("%d stores of another value into resp.SkipBody reach the read without the method store in between", bad))
 }
